@@ -22,3 +22,20 @@ Theorem C16_tiling : forall (l : list (N * bytes)) off lim, 0 < lim ->
   slice off lim l ++ slice (off + lim) 0 l = slice off 0 l.
 Proof. exact (@slice_tiling (N * bytes)). Qed.
 Print Assumptions C16_tiling.
+
+(* ... so reading page after page with one positive limit returns every matching document exactly once and in order:
+   the first n pages concatenated are the whole listing as soon as n pages reach its end *)
+Theorem C16_pages_cover : forall (l : list (N * bytes)) lim n, 0 < lim -> (length l <= n * N.to_nat lim)%nat ->
+  concat (map (fun i => slice (N.of_nat i * lim) lim l) (seq 0 n)) = l.
+Proof. exact (@pages_cover (N * bytes)). Qed.
+Print Assumptions C16_pages_cover.
+
+(* an offset at or beyond the end gives the empty page for every limit; a limit larger than what is left gives what is left *)
+Theorem C16_beyond_end : forall (l : list (N * bytes)) off lim, (length l <= N.to_nat off)%nat -> slice off lim l = nil.
+Proof. exact (@slice_beyond (N * bytes)). Qed.
+Print Assumptions C16_beyond_end.
+
+Theorem C16_large_limit : forall (l : list (N * bytes)) off lim, (length l <= N.to_nat off + N.to_nat lim)%nat ->
+  slice off lim l = slice off 0 l.
+Proof. exact (@slice_large (N * bytes)). Qed.
+Print Assumptions C16_large_limit.
